@@ -879,8 +879,8 @@ func describe(cs *tcase) string {
 func TestCheck(t *testing.T) {
 	r := mon.Start(t, "C08")
 	defer r.Finish()
-	r.Rule("cases: (multisets, configuration) pairs — 1..6 timer series under ONE metric name (different tag sets and sources; 75% of the cases have 2..6), each with its own multiset of n from {0 (idle persisted series after a Reset),1,2,3,4..200} values: integer-valued values with dyadic rates from {1/8..4} (exact comparison) or arbitrary finite floats with rates in (0,4) (1e-9 relative tolerance, scaled by the magnitude of the inputs for sums); 0..6 integer percentiles in [-100,100] (pool with ±100 ±90 ±50 ±1 0), random sub-metric masks, flush intervals from 1ns to 1h, a third of the series tagged gsd_histogram with bounds equal to values, duplicates and malformed items, limits {0,1,2,3,5,MaxUint32}; the datapoints of all series are interleaved in two different arrival orders, split over several batches, each batch turned into a map by the real MetricMap.Receive (as the parser does, so a series is first / not first of its name in a map, with a sampled first datapoint) and merged by ReceiveMap into a fresh or a warmed (one earlier flush/Reset) MetricAggregator, then Flush + Process; every field of every series is compared with an independent reference (count = round(sum 1/rate), sort, rank = floor(|p|/100*n+0.5), k lowest/highest, population std-dev, #values <= bound). Idle timers must also report sum 0 and sum of squares 0 (min/max/mean/median/std-dev of the empty multiset are only recorded). Reporting oracle: every 25th case and the histogram corpus are flushed once more with one name per series and the map is handed to the real stdout backend (captured by a logrus hook) and the real graphite backend in tags mode (scripted connection); per series the text payloads must show no summary statistic for a gsd_histogram timer, nothing at all with limit 0, and exactly the reference buckets otherwise. Non-trivial: a series with n >= 2 and at least one percentile of each sign, or a histogram with >= 2 kept bounds; distinct by (series-per-name class, variant, n class, percentile list) resp. (series-per-name class, n class, limit, number of kept bounds).")
-	r.Assume("strconv.ParseFloat defines which histogram bounds are parsable; gostatsd.MetricMap.Receive/Merge deliver the datapoints (C07)")
+	r.Rule("cases: (multisets, configuration) pairs — 1..6 timer series under ONE metric name (different tag sets and sources; 75% of the cases have 2..6), each with its own multiset of n from {0 (idle persisted series after a Reset),1,2,3,4..200} values: integer-valued values with dyadic rates from {1/8..4} (exact comparison) or arbitrary finite floats with rates in (0,4) (1e-9 relative tolerance, scaled by the magnitude of the inputs for sums); 0..6 integer percentiles in [-100,100] (pool with ±100 ±90 ±50 ±1 0), random sub-metric masks, flush intervals from 1ns to 1h, a third of the series tagged gsd_histogram with bounds equal to values, duplicates and malformed items, limits {0,1,2,3,5,MaxUint32}; the datapoints of all series are interleaved in two different arrival orders, split over several batches, each batch turned into a map by the real MetricMap.Receive (as the parser does, so a series is first / not first of its name in a map, with a sampled first datapoint) and merged by ReceiveMap into a fresh or a warmed (one earlier flush/Reset) MetricAggregator, then Flush + Process; every field of every series is compared with an independent reference (count = round(sum 1/rate), sort, rank = floor(|p|/100*n+0.5), k lowest/highest, population std-dev, #values <= bound). Idle timers must also report sum 0 and sum of squares 0 (min/max/mean/median/std-dev of the empty multiset are only recorded). Reporting oracle: every 25th case and the histogram corpus are flushed once more with one name per series and the map is handed to the real stdout backend (captured by a logrus hook) and the real graphite backend in tags mode (scripted connection); per series the text payloads must show no summary statistic for a gsd_histogram timer, nothing at all with limit 0, and exactly the reference buckets otherwise. Non-trivial: a series with n >= 2 and at least one percentile of each sign, or a histogram with >= 2 kept bounds; distinct by (series-per-name class, variant, n class, percentile list) resp. (series-per-name class, n class, limit, number of kept bounds). Configuration phases: (config-text) random [disabled-sub-metrics] sections (TOML / YAML; no section, empty section, 1..15 of the documented keys true/false, a regular key and its -pct sibling set differently) are read by viper and handed to the real gostatsd.DisabledSubMetrics; the returned mask must disable exactly the keys set to true, an aggregator built with it is run on two multiset cases and judged by a reference whose mask comes from the text, and the stdout backend built by NewClientFromViper from the same text must write exactly the allowed sub-metric lines per timer; (config-binary, one shard) the real cmd/gostatsd binary (verif tag: dumps the constructed server) is run with percent-threshold (0..5 integers in [-100,100] incl. empty list, duplicates, extra blanks; flag, flag with separate value, GSD_ environment variable, file, or not given = 90), timer-histogram-limit (flag / env / file / not given) and a [disabled-sub-metrics] section in a TOML or YAML file; the dumped percentile set, limit and mask must be what the text means, and an aggregator built with exactly the dumped values is judged on two multiset cases by the reference derived from the text. Flusher phase: the real MetricFlusher (aligned with/without offset, or plain ticker; intervals 7s..1h) over a real BackendHandler with 1..3 real MetricAggregators and a capturing backend, on a mock clock that starts at the real now: 3..7 flushes per case, batches of sampled timer and counter datapoints dispatched between advancements that stop short of the deadline, hit it exactly or overshoot it by 0.25..3.75 intervals (so the following window is 1..4 intervals long), the first window of aligned flushing being partial; every flushed timer is compared field by field with the reference over the datapoints of ITS window and the window's own length (tick value minus previous tick value), counters with value/length; the first window, whose start the flusher reads from the real clock, is judged by the bracket [epoch of the mock, first flush observed]. Distinct by (phase, format, source and shape of the percentile list, limit source, section shape) resp. (aligned, interval, workers, set of window lengths).")
+	r.Assume("strconv.ParseFloat defines which histogram bounds are parsable; gostatsd.MetricMap.Receive/Merge deliver the datapoints (C07); tilinna/clock Mock semantics (a ticker fires once per Add with its deadline as value and is re-armed on its own grid after the new now); viper/TOML/YAML readers turn the written text into keys and values")
 	c := &checker{r: r}
 	if rp, err := newReporters(); err != nil {
 		t.Logf("reporting oracle unavailable: %v", err)
